@@ -136,6 +136,7 @@ class ObsInterp(ObjInterp):
         super().__init__(tu)
         self.F = fields
         self.inlined = {}
+        self.temps = {}        # construct-expression id -> name of the local / temporary Observer it creates
 
     def is_own_fn(self, f):
         if f.get('rec') == OBSR:
@@ -310,7 +311,7 @@ class ObsInterp(ObjInterp):
             return d.get('s:' + did)
         if self.is_field(e, self.F.last_observed):
             o = self.base_obj(e, fr)
-            return ('O', o, bool(d.get('renewed:' + o))) if o and o not in OBJS else None
+            return ('O', o, bool(d.get('renewed:' + o)), bool(d.get('eq:' + o))) if o and o not in OBJS else None
         if self.is_field(e, self.F.last_notified):
             ks = tu.kids(e)
             x = self.observable_of(ks[0], st, fr) if ks else fr.env.get('this')
@@ -381,6 +382,8 @@ class ObsInterp(ObjInterp):
                         'themselves, or keep the distance at 64 bits' % (bits, '2^%d' % (bits - 1)), n, fr, st)
         older = bool(d.get('N')) and not b[2]
         dist = (5 if older else -5) * sign              # notification stamp minus observed stamp, representative value
+        if len(b) > 3 and b[3] and not b[2]:
+            dist = 0                                    # caught up by assignment: the two stamps are equal
         if not signed:
             dist %= 2 ** 64
         return {'<': dist < c, '<=': dist <= c, '>': dist > c, '>=': dist >= c, '==': dist == c, '!=': dist != c}[op]
@@ -432,7 +435,10 @@ class ObsInterp(ObjInterp):
                 if sa[0] != 'O' or sb[0] != 'N' or d.get(sa[1]) != sb[1] or sb[1] not in OBJS:
                     return None
                 older = bool(d.get('N')) and not sa[2]
-                # stamps are pairwise distinct (R-C19-3): < and <= coincide, == never holds
+                if len(sa) > 3 and sa[3] and not sa[2]:
+                    # the two stamps are equal (the observer caught up by assignment and nothing happened since)
+                    return {'<': False, '<=': True, '>': False, '>=': True, '==': True, '!=': False}[op]
+                # otherwise stamps are pairwise distinct (R-C19-3): < and <= coincide, == never holds
                 return {'<': older, '<=': older, '>': not older, '>=': not older, '==': False, '!=': True}[op]
             if e['opcode'] in ('==', '!='):
                 a, b = self.pval(ks[0], st, fr), self.pval(ks[1], st, fr)
@@ -559,6 +565,38 @@ class ObsInterp(ObjInterp):
                 d['b:' + str(p['id'])] = self.eval_bool(a, st, fr)
         return env, freeze(d)
 
+    def on_dtor_elem(self, e, st, fr):
+        tu = self.tu
+        name = None
+        if e[0] == 'AD':
+            name = fr.env.get(e[1])
+        elif e[0] == 'TD':
+            bt = tu.node(e[1])
+            inner = tu.strip(tu.kids(bt)[0]) if bt is not None and tu.kids(bt) else None
+            name = self.temps.get(inner['id']) if inner is not None else None
+        if not isinstance(name, str) or not name.startswith('local:'):
+            return [st]
+        d = thaw(st)
+        if d.get(name) in (None, 'gone'):
+            return [st]
+        dts = [f for f in tu.functions.values() if f.get('rec') == OBSR and f.get('dtor') and not f['dep'] and tu.cfg(f) is not None]
+        if len(dts) != 1:
+            self.und('no destructor body for a local Observer')
+            return [st]
+        outs = []
+        for s2, rv in self.run_fn(dts[0], {'this': name}, st, fr, None, 1):
+            d2 = thaw(s2)
+            if d2.get('r:' + name):
+                self.report('stale-registration', 'a local Observer (`%s`) is destroyed while it is still in the observer list of %s: that '
+                            'observable later writes through / compares against a dangling Observer* (events %s)'
+                            % (name, list(d2['r:' + name]), list(d2.get('$ev', ()))), tu.node(e[1]) if e[0] == 'TD' else None, fr, s2)
+            d2[name] = 'gone'
+            d2.pop('r:' + name, None)
+            s3 = freeze(d2)
+            if s3 not in outs:
+                outs.append(s3)
+        return outs
+
     def inline(self, n, callee, this_obj, st, fr):
         bound = self.bind(n, callee, this_obj, st, fr)
         if bound is None:
@@ -634,12 +672,29 @@ class ObsInterp(ObjInterp):
                     d['s:' + did] = self.stamp_of(ks[1], st, fr)
                     return [freeze(d)]
             return [st]
+        if k in ('CXXConstructExpr', 'CXXTemporaryObjectExpr') and base_type(tu.sd(n).get('ct') or tu.sd(n).get('cty')) == OBSR:
+            # a local / temporary Observer: its constructor is followed, its destructor runs at the end of its scope
+            if any(e_[0] == 'I' and e_[1] == n['id'] for b_ in tu.cfg(fr.fn).blocks.values() for e_ in b_.el):
+                return [st]           # delegating constructor call: handled by on_init
+            callee = tu.callee_fn(n)
+            if n.get('elidable') or callee is None or tu.cfg(callee) is None:
+                self.und('construction of a local Observer that the analysis cannot follow at %s' % tu.loc(n))
+                return [st]
+            name = 'local:%s#%d' % (tu.line(n), len(self.temps))
+            self.temps[n['id']] = name
+            d[name] = 'undef'
+            d['r:' + name] = ()
+            return self.inline(n, callee, name, freeze(d), fr)
         if k == 'DeclStmt':
             for v in tu.kids(n):
                 if v.get('kind') != 'VarDecl' or not tu.kids(v):
                     continue
                 init = tu.kids(v)[-1]
                 vt = v.get('type', {}).get('qualType', '')
+                i0 = tu.strip(init, casts=True)
+                if i0 is not None and i0.get('id') in self.temps and '&' not in vt:
+                    fr.env[v['id']] = self.temps[i0['id']]
+                    continue
                 ict = tu.sd(tu.strip(init)).get('ct') or ''
                 if vt.replace('const ', '').strip() == 'bool' or (ict == 'bool' and 'auto' in vt):
                     d['b:' + str(v['id'])] = self.eval_bool(init, st, fr)
@@ -682,6 +737,7 @@ class ObsInterp(ObjInterp):
                 if s and s[0] == 'O':
                     d = self.ev(st, 'renew(%s.lastObserved)' % s[1])
                     d['renewed:' + s[1]] = True
+                    d['eq:' + s[1]] = False
                     return [freeze(d)]
                 if s and s[0] == 'N':
                     self.report('renews-notification', 'an Observer member renews the observable\'s notification stamp: every other '
@@ -693,7 +749,13 @@ class ObsInterp(ObjInterp):
                     self.report('notification-stamp-overwritten', 'an Observer member assigns to the observable\'s notification stamp: its '
                                 'observers compare against a stamp that is not the time of a notification', n, fr, st)
                 elif so and so[0] == 'O' and sa and sa[0] == 'N':
-                    self.und('lastObserved is assigned from the notification stamp at %s (catch-up by assignment is not modelled)' % tu.loc(n))
+                    if d.get(so[1]) == sa[1] and sa[1] in OBJS:
+                        # catch-up by assignment: lastObserved now EQUALS the notification stamp of its own observee
+                        d = self.ev(st, 'catchup(%s.lastObserved)' % so[1])
+                        d['eq:' + so[1]] = True
+                        d['renewed:' + so[1]] = False
+                        return [freeze(d)]
+                    self.und('lastObserved is assigned from the notification stamp of another observable at %s' % tu.loc(n))
                 return [st]
             if sd.get('rec') == TS or q in ('std::move', 'std::forward', 'std::addressof'):
                 return [st]
@@ -715,6 +777,17 @@ class ObsInterp(ObjInterp):
                                 and self.list_end(args[1], st, fr, ('end', 'cend')) == x and isinstance(p_, tuple) and p_[0] == 'addr' and p_[1] not in OBJS:
                             return [self.reg_event(st, 'unreg', x, p_[1])]
                 self.und('operation %s on an observer list in a form the analysis does not model at %s' % (nm, tu.loc(n)))
+                return [st]
+            if q == 'std::swap' and len(args) == 2:
+                fa, fb = tu.strip(args[0], casts=True), tu.strip(args[1], casts=True)
+                if self.is_field(fa, self.F.observee) and self.is_field(fb, self.F.observee):
+                    oa, ob = self.base_obj(fa, fr), self.base_obj(fb, fr)
+                    if oa and ob and oa not in OBJS and ob not in OBJS:
+                        d[oa], d[ob] = d.get(ob), d.get(oa)
+                        d['$ev'] = d.get('$ev', ()) + ('swap(%s.observee,%s.observee)' % (oa, ob),)
+                        return [freeze(d)]
+                if any(self.is_field(x_, self.F.observee) or self.obj_of(x_, fr) is not None for x_ in (fa, fb)):
+                    self.und('std::swap on observer state in a form the analysis does not model at %s' % tu.loc(n))
                 return [st]
             if q == 'std::remove':
                 return [st]           # decided where its result is consumed (erase)
@@ -773,6 +846,9 @@ def obs_role(f):
     return None
 
 
+CATCHUP = [False]      # does any Observer member assign lastObserved from a notification stamp?
+
+
 def obs_scenarios(f, role):
     out = []
     ps = f['params']
@@ -797,6 +873,10 @@ def obs_scenarios(f, role):
         for nv in (True, False):
             out.append(('observee=P, %snotified since the last poll' % ('' if nv else 'not '), {'this': 'this'},
                         {'this': 'P', 'N': nv}, ['this']))
+        if CATCHUP[0]:
+            # the class catches up by assigning the notification stamp: a poll can then start with the two stamps EQUAL
+            out.append(('observee=P, not notified since the last poll, stamps equal (caught up by assignment)', {'this': 'this'},
+                        {'this': 'P', 'N': False, 'eq:this': True}, ['this']))
     res = []
     for label, env, d, alive in out:
         for o, v in list(d.items()):
@@ -831,6 +911,16 @@ def check_observer(ctx, tu, F, analysed, all_tus=()):
     it = ObsInterp(tu, F)
     n1 = n2 = n4 = 0
     helpers = []
+    CATCHUP[0] = False
+    for f_ in tu.functions.values():
+        if f_.get('rec') == OBSR and not f_['dep'] and tu.body(f_) is not None:
+            for x_ in tu.walk(tu.body(f_)):
+                if x_.get('kind') == 'CXXOperatorCallExpr' and tu.sd(x_).get('q') == TS + '::operator=':
+                    s_, o_, a_ = tu.call_parts(x_)
+                    o0 = tu.strip(o_, casts=True) if o_ is not None else None
+                    if o0 is not None and tu.sd(o0).get('d') == F.last_observed['id'] and a_ and any(
+                            y_.get('id') and tu.sd(y_).get('d') == F.last_notified['id'] for y_ in tu.walk(a_[0])):
+                        CATCHUP[0] = True
     for f in sorted(tu.functions.values(), key=lambda x: (x['f'], x['l'])):
         if f['dep'] or f.get('rec') != OBSR or tu.cfg(f) is None or f.get('implicit'):
             continue
@@ -926,7 +1016,7 @@ def check_observer(ctx, tu, F, analysed, all_tus=()):
                         problems.append(('wrong-result', 'wasNotified() returns %s when the observable has %s since the last poll '
                                          '(required: the truth of lastObserved < observee->lastNotified, compared before any renew)'
                                          % (rv, 'notified' if d0['N'] else 'not notified')))
-                    elif rv and 'renew(this.lastObserved)' not in evs:
+                    elif rv and 'renew(this.lastObserved)' not in evs and 'catchup(this.lastObserved)' not in evs:
                         problems.append(('no-renew', 'wasNotified() returns true without renewing lastObserved: the same notification is '
                                          'reported again by the next poll'))
                 if d.get('this') != d0['this']:
@@ -2366,9 +2456,12 @@ def check_timestamp(ctx, tu_src, tu_drv, lib_tus, analysed_names):
             elif off is not None:
                 # the value handed out is (result of the one increment) + constant: still one distinct, increasing value per call
                 next_offsets.add(off + (rmw[0][1][1] if rmw[0][1][2] == 'new' else 0))
-            elif atomic_call(tu_src, ret, is_global) and atomic_call(tu_src, ret, is_global)[0] == 'load':
-                problems.append(('separate-load', 'nextValue returns a separate load of global instead of the result of its own increment: '
-                                 'two threads can obtain the same stamp'))
+            elif loads_counter(tu_src, ret, var_init):
+                problems.append(('separate-load', 'nextValue returns a value computed from a separate load of the counter (`%s`%s) instead of the '
+                                 'result of its own increment: another thread\'s increment can fall between the increment and the load, and '
+                                 'two threads obtain the same stamp (while one value is skipped)'
+                                 % (tu_src.show(ret), ' through %s()' % loads_counter(tu_src, ret, var_init) if isinstance(
+                                     loads_counter(tu_src, ret, var_init), str) else '')))
             else:
                 undec.append('returned expression `%s` is not the result of the increment' % tu_src.show(ret))
         if problems:
@@ -2401,8 +2494,8 @@ def check_timestamp(ctx, tu_src, tu_drv, lib_tus, analysed_names):
         key = '%s|%s|%s|' % (R3, t.fn_file(f), inst)
         if role is None:
             hf, hn, hu = value_ops(t, f, VALUE)
-            if not any(v != 'old' for v in hf) and not hu and not refs_global(t, f):
-                n -= 1              # does not write the stamp or the counter
+            if not any(v != 'old' for v in hf) and not hu and not writes_global(t, f):
+                n -= 1              # does not write the stamp or the counter (reading them is harmless)
             elif f.get('access') == 'private' and not f.get('virt') and not callers_outside([tu_src, tu_drv] + list(lib_tus), q, {TS}):
                 analysed_names.add(q + ' ' + fty)
                 ctx.ok(R3, inst, 'private helper called only from TimeStamp members: followed at each call site with its arguments bound',
@@ -2523,6 +2616,47 @@ def cached_source(t, f, ret):
             if did not in local or static_local:
                 return x['referencedDecl'].get('name', '?')
     return None
+
+
+def loads_counter(t, e, var_init, depth=0):
+    """does the expression read the counter again - directly (load / conversion), through const locals, or through a function
+    whose body only loads it?  True / name of the accessor / False"""
+    if e is None or depth > 4:
+        return False
+    for y in t.walk(e):
+        if not y.get('id'):
+            continue
+        a = atomic_call(t, y, is_global) if y.get('kind') in CALLS else None
+        if a and a[0] == 'load':
+            return True
+        if y.get('kind') in CALLS and not a:
+            cf = t.callee_fn(y)
+            if cf is not None and t.cfg(cf) is not None and not t.sd(y).get('q', '').startswith('std::'):
+                ops = [atomic_call(t, z, is_global) for _b, _i, z in t.cfg(cf).stmts()]
+                if any(o and o[0] == 'load' for o in ops) and not any(o and o[0] in ('rmw', 'write', 'other') for o in ops):
+                    return cf['q'].split('::')[-1]
+        if y.get('kind') == 'DeclRefExpr' and y.get('referencedDecl', {}).get('id') in var_init:
+            r = loads_counter(t, var_init[y['referencedDecl']['id']], {k: v for k, v in var_init.items() if k != y['referencedDecl']['id']}, depth + 1)
+            if r:
+                return r
+    return False
+
+
+def writes_global(t, f):
+    """does f modify the counter (atomic RMW / store, or plain arithmetic on it)?"""
+    if t.body(f) is None:
+        return False
+    for x in t.walk(t.body(f)):
+        if not x.get('id'):
+            continue
+        if x.get('kind') in CALLS:
+            a = atomic_call(t, x, is_global)
+            if a and a[0] != 'load':
+                return True
+        elif x.get('kind') in ('BinaryOperator', 'CompoundAssignOperator', 'UnaryOperator') and x.get('opcode') in ('=', '+=', '-=', '++', '--', '&') \
+                and t.kids(x) and t.sd(t.strip(t.kids(x)[0], casts=True)).get('q') == COUNTER_Q[0]:
+            return True
+    return False
 
 
 def rmw_offset(t, e, rmw_id, var_init, depth=0):
